@@ -57,6 +57,10 @@ M = [
   'if (static_cast<size_t>(transitions_.transitions[i].cols()) != graph_.getS()[i]) {', 'if (false) {'),
  ('M14 CooperativeModel constructor forgets the state-tag test of the reward bases', 'src/Factored/MDP/CooperativeModel.cpp',
   'std::tie(error, id) = checkTag(S, r.tag);', 'error = TagErrors::None;'),
+ ('M15 POMDP::Model(const PM&) no longer validates the copied observation rows', 'include/AIToolbox/POMDP/Model.hpp',
+  '''                if ( !isProbability(O, observations_[a].row(s1)) )
+                    throw std::invalid_argument("Input observation matrix does not contain valid probabilities.");
+            }''', '''            }'''),
  ('M12 checkTag no longer reports duplicates', 'src/Factored/Utils/Core.cpp',
   'if (tagV == previousV)    return std::make_pair(TagErrors::Duplicates, t);', ''),
 ]
